@@ -69,6 +69,8 @@ ENVIRONMENTS = [
      "LC_ALL": "C", "USER": "someone", "HOME": "/nonexistent", "CI": "true", "D42_CHILD_RECURSIONLIMIT": "3000",
      "D42_CHILD_CWD": "/tmp"},
     {"PYTEST_XDIST_WORKER": "gw7", "TZ": "America/St_Johns", "PYTHONOPTIMIZE": "1", "COLUMNS": "40", "D42_CHILD_RECURSIONLIMIT": "1500"},
+    # the caller's arithmetic settings: a decimal context with little precision and another rounding mode
+    {"D42_CHILD_DECIMAL": "4,ROUND_UP", "TZ": "UTC"},
 ]
 
 
